@@ -83,7 +83,7 @@ def check(ctx):
         for ks in itertools.product([0, 1, 2], repeat=n):
             size = rng.choice([1, 2, 3, 4, 7, 8, 12, 16, 31, 32])
             lines.append("Qsort %d %d %s" % (size, rng.choice([1, 1, 2]), fmt(ks)))
-    for i in range(3000 if ctx.thorough else 800):
+    for i in range(30000 if ctx.thorough else 800):
         n = rng.choice([4, 5, 6, 7, 8, 9, 15, 16, 17, 33, 64])
         ks = [rng.randrange(rng.choice([2, 3, 8, 256])) for _ in range(n)]
         lines.append("Qsort %d %d %s" % (rng.randrange(1, 33), rng.choice([1, 2, 16]), fmt(ks)))
@@ -92,7 +92,7 @@ def check(ctx):
         for ks in itertools.combinations_with_replacement([1, 3, 5], n):
             for key in range(0, 7):
                 lines.append("Bsearch %d 1 %s %d" % (rng.choice([1, 2, 4, 8, 32]), fmt(ks), key))
-    for i in range(3000 if ctx.thorough else 800):
+    for i in range(30000 if ctx.thorough else 800):
         n = rng.choice([0, 1, 2, 3, 7, 8, 9, 31, 32, 33, 64])
         div = rng.choice([1, 2])
         ks = sorted(rng.randrange(0, 250) for _ in range(n))
